@@ -34,6 +34,8 @@ class Facts:
             import inline as _inline
             inl = _inline.inline_all(self)
             body_dicts = [inl[b["key"]] for b in d["bodies"]]
+            known = {b["key"] for b in d["bodies"]}
+            body_dicts += [inl[k] for k in inl if k not in known]  # specialised closures of provided trait methods
         self.n_inlined_sites = sum(len(b.get("inlined", [])) for b in body_dicts)
         for b in body_dicts:
             body = Body(b, self)
